@@ -162,31 +162,80 @@ theorem HOverlay.find_mem : ∀ {s : HOverlay} {l : String} {a : Addr}, s.find l
     · left; exact (Option.some.inj h).symm
     · right; exact HOverlay.find_mem (s := rest) h
 
+/-- how the layer list changes: every root (and every `find` result) is an old one or new -/
+def SNew (h : Heap) (s s' : HOverlay) : Prop :=
+  (∀ a ∈ s'.roots, a ∈ s.roots ∨ h.size ≤ a) ∧
+  (∀ l a, s'.find l = some a → s.find l = some a ∨ h.size ≤ a)
+
+theorem SNew.refl (h : Heap) (s : HOverlay) : SNew h s s :=
+  ⟨fun _ ha => Or.inl ha, fun _ _ ha => Or.inl ha⟩
+
+theorem SNew.trans {h h1 : Heap} {s s1 s2 : HOverlay} (a : SNew h s s1) (b : SNew h1 s1 s2)
+    (hs : h.size ≤ h1.size) : SNew h s s2 := by
+  refine ⟨fun x hx => ?_, fun l x hx => ?_⟩
+  · rcases b.1 x hx with h1' | h1'
+    · exact a.1 x h1'
+    · exact Or.inr (Nat.le_trans hs h1')
+  · rcases b.2 l x hx with h1' | h1'
+    · exact a.2 l x h1'
+    · exact Or.inr (Nat.le_trans hs h1')
+
+theorem HOverlay.find_append {l l' : String} {n a : Addr} : ∀ {s : HOverlay},
+    HOverlay.find (s ++ [(l, n)]) l' = some a → s.find l' = some a ∨ a = n
+  | [], h => by
+    simp only [List.nil_append, HOverlay.find] at h
+    split at h
+    · right; exact (Option.some.inj h).symm
+    · cases h
+  | (m, b) :: rest, h => by
+    simp only [List.cons_append, HOverlay.find] at h ⊢
+    split
+    · rename_i hm; simp only [hm, if_true] at h; left; exact h
+    · rename_i hm; simp only [hm, if_false] at h; exact HOverlay.find_append (s := rest) h
+
 theorem ensureOverlay_upd {h : Heap} {s : HOverlay} {l : String} (hc : ClosedIn R h) (hf : FreshIn R h)
-    (hs : ∀ a ∈ s.roots, R a) :
+    (hs : ∀ a, s.find l = some a → R a) :
     Upd R h (ensureOverlay h s l).1 ∧ R (ensureOverlay h s l).2.2 ∧
-      ∀ a ∈ (ensureOverlay h s l).2.1.roots, R a := by
+      SNew h s (ensureOverlay h s l).2.1 ∧ (ensureOverlay h s l).2.1.find l = some (ensureOverlay h s l).2.2 := by
   unfold ensureOverlay
   cases hfnd : s.find l with
-  | some a => exact ⟨Upd.refl hc, hs a (HOverlay.find_mem hfnd), hs⟩
+  | some a => exact ⟨Upd.refl hc, hs a hfnd, SNew.refl h s, hfnd⟩
   | none =>
-    refine ⟨upd_alloc hc (by intro k hk; simp [Cell.kids] at hk), hf _ (Nat.le_refl _), ?_⟩
-    intro a ha
-    simp only [HOverlay.roots, List.map_append, List.map_cons, List.map_nil, List.mem_append,
-      List.mem_singleton] at ha
-    rcases ha with ha | rfl
-    · exact hs a ha
-    · exact hf _ (Nat.le_refl _)
+    refine ⟨upd_alloc hc (by intro k hk; simp [Cell.kids] at hk), hf _ (Nat.le_refl _), ⟨?_, ?_⟩, ?_⟩
+    · intro a ha
+      simp only [HOverlay.roots, List.map_append, List.map_cons, List.map_nil, List.mem_append,
+        List.mem_singleton] at ha
+      rcases ha with ha | rfl
+      · exact Or.inl ha
+      · exact Or.inr (Nat.le_refl _)
+    · intro l' a ha
+      rcases HOverlay.find_append ha with h1 | rfl
+      · exact Or.inl h1
+      · exact Or.inr (Nat.le_refl _)
+    · -- the new layer is found under its name
+      have : ∀ (t : HOverlay), t.find l = none → HOverlay.find (t ++ [(l, h.size)]) l = some h.size := by
+        intro t
+        induction t with
+        | nil => intro _; simp [HOverlay.find]
+        | cons p t ih =>
+          obtain ⟨m, b⟩ := p
+          intro ht
+          simp only [HOverlay.find] at ht
+          simp only [List.cons_append, HOverlay.find]
+          split
+          · rename_i hm; simp [hm] at ht
+          · rename_i hm; simp only [hm, if_false] at ht; exact ih ht
+      exact this s hfnd
 
 theorem putNodeH_upd {h h' : Heap} {s s' : HOverlay} {l : String} {comps : List String} {v : Addr}
-    (hc : ClosedIn R h) (hf : FreshIn R h) (hs : ∀ a ∈ s.roots, R a) (hv : R v)
-    (he : putNodeH h s l comps v = some (h', s')) : Upd R h h' ∧ ∀ a ∈ s'.roots, R a := by
+    (hc : ClosedIn R h) (hf : FreshIn R h) (hs : ∀ a, s.find l = some a → R a) (hv : R v)
+    (he : putNodeH h s l comps v = some (h', s')) : Upd R h h' ∧ SNew h s s' := by
   unfold putNodeH at he
   cases hl : comps.getLast? with
   | none => simp [hl] at he
   | some last =>
     simp only [hl] at he
-    obtain ⟨u0, hcur, hs1⟩ := ensureOverlay_upd (l := l) hc hf hs
+    obtain ⟨u0, hcur, hs1, _⟩ := ensureOverlay_upd (l := l) hc hf hs
     generalize ensureOverlay h s l = eo at he u0 hcur hs1
     obtain ⟨h1, s1, cur⟩ := eo
     simp only at he u0 hcur hs1
@@ -203,14 +252,21 @@ theorem putNodeH_upd {h h' : Heap} {s s' : HOverlay} {l : String} {comps : List 
         obtain ⟨rfl, rfl⟩ := he
         exact ⟨(u0.trans u1).trans (addValue_upd u1.closed hcR hv ha), hs1⟩
 
+theorem find_R_of_snew {h : Heap} {s s' : HOverlay} {l : String} (hf : FreshIn R h)
+    (hs : ∀ a, s.find l = some a → R a) (hn : SNew h s s') : ∀ a, s'.find l = some a → R a := by
+  intro a ha
+  rcases hn.2 l a ha with h1 | h1
+  · exact hs a h1
+  · exact hf a h1
+
 theorem putLeavesH_upd {l : String} {comps : List String} :
     ∀ (leaves : List (List String × Addr)) (h : Heap) (s : HOverlay) (h' : Heap) (s' : HOverlay),
-      ClosedIn R h → FreshIn R h → (∀ a ∈ s.roots, R a) → (∀ p ∈ leaves, R p.2) →
-      putLeavesH l comps h s leaves = some (h', s') → Upd R h h' ∧ ∀ a ∈ s'.roots, R a
-  | [], h, s, h', s', hc, _, hs, _, he => by
+      ClosedIn R h → FreshIn R h → (∀ a, s.find l = some a → R a) → (∀ p ∈ leaves, R p.2) →
+      putLeavesH l comps h s leaves = some (h', s') → Upd R h h' ∧ SNew h s s'
+  | [], h, s, h', s', hc, _, _, _, he => by
     simp only [putLeavesH, Option.some.injEq, Prod.mk.injEq] at he
     obtain ⟨rfl, rfl⟩ := he
-    exact ⟨Upd.refl hc, hs⟩
+    exact ⟨Upd.refl hc, SNew.refl h s⟩
   | (k, a) :: rest, h, s, h', s', hc, hf, hs, hl, he => by
     simp only [putLeavesH] at he
     cases hp : putNodeH h s l (comps ++ k) a with
@@ -219,16 +275,19 @@ theorem putLeavesH_upd {l : String} {comps : List String} :
       obtain ⟨h1, s1⟩ := q
       simp only [hp] at he
       obtain ⟨u1, hs1⟩ := putNodeH_upd hc hf hs (hl (k, a) (List.mem_cons_self ..)) hp
-      obtain ⟨u2, hs2⟩ := putLeavesH_upd rest h1 s1 h' s' u1.closed (hf.mono u1.size) hs1
-        (fun p hp => hl p (List.mem_cons_of_mem _ hp)) he
-      exact ⟨u1.trans u2, hs2⟩
+      obtain ⟨u2, hs2⟩ := putLeavesH_upd rest h1 s1 h' s' u1.closed (hf.mono u1.size)
+        (find_R_of_snew hf hs hs1) (fun p hp => hl p (List.mem_cons_of_mem _ hp)) he
+      exact ⟨u1.trans u2, hs1.trans hs2 u1.size⟩
 
 /-! ### Flatten hands out nodes reachable from the value -/
 
+/-- `b` is reached from `a` and holds a leaf -/
+def LeafBelow (h : Heap) (a b : Addr) : Prop := Reach h a b ∧ ∃ sc, h.get? b = some (.leaf sc)
+
 theorem flattenKvs_reach {h : Heap} {g : Addr → List String → Option (List (List String × Addr))}
-    (hg : ∀ a pre out, g a pre = some out → ∀ p ∈ out, Reach h a p.2) :
+    (hg : ∀ a pre out, g a pre = some out → ∀ p ∈ out, LeafBelow h a p.2) :
     ∀ (kvs : List (String × Addr)) (pre : List String) (out : List (List String × Addr)),
-      flattenKvs g kvs pre = some out → ∀ p ∈ out, ∃ q ∈ kvs, Reach h q.2 p.2
+      flattenKvs g kvs pre = some out → ∀ p ∈ out, ∃ q ∈ kvs, LeafBelow h q.2 p.2
   | [], _, out, he, p, hp => by
     simp only [flattenKvs, Option.some.injEq] at he
     subst he; cases hp
@@ -249,7 +308,7 @@ theorem flattenKvs_reach {h : Heap} {g : Addr → List String → Option (List (
           exact ⟨q, List.mem_cons_of_mem _ hq, hr⟩
 
 theorem flattenF_reach {h : Heap} : ∀ (f : Nat) (a : Addr) (pre : List String)
-    (out : List (List String × Addr)), flattenF f h a pre = some out → ∀ p ∈ out, Reach h a p.2
+    (out : List (List String × Addr)), flattenF f h a pre = some out → ∀ p ∈ out, LeafBelow h a p.2
   | 0, _, _, _, he, _, _ => by simp [flattenF] at he
   | f + 1, a, pre, out, he, p, hp => by
     simp only [flattenF] at he
@@ -262,23 +321,31 @@ theorem flattenF_reach {h : Heap} : ∀ (f : Nat) (a : Addr) (pre : List String)
         subst he
         simp only [List.mem_singleton] at hp
         subst hp
-        exact .refl _
+        exact ⟨.refl _, s, hg⟩
       | list xs => simp [hg] at he
       | cont kvs =>
         simp only [hg] at he
-        obtain ⟨q, hq, hr⟩ := flattenKvs_reach (flattenF_reach f) kvs pre out he p hp
-        exact .step hg (by simp only [Cell.kids, List.mem_map]; exact ⟨q, hq, rfl⟩) hr
+        obtain ⟨q, hq, hr, hlf⟩ := flattenKvs_reach (flattenF_reach f) kvs pre out he p hp
+        exact ⟨.step hg (by simp only [Cell.kids, List.mem_map]; exact ⟨q, hq, rfl⟩) hr, hlf⟩
 
+/-- Put: a value that is not a container must be in `R` itself; of a container value only the
+    LEAF cells below it have to be -/
 theorem putH_upd {h h' : Heap} {s s' : HOverlay} {l : String} {comps : List String} {v : Addr}
-    (hc : ClosedIn R h) (hf : FreshIn R h) (hs : ∀ a ∈ s.roots, R a) (hv : R v)
-    (he : putH h s l comps v = some (h', s')) : Upd R h h' ∧ ∀ a ∈ s'.roots, R a := by
+    (hc : ClosedIn R h) (hf : FreshIn R h) (hs : ∀ a, s.find l = some a → R a)
+    (hv : (∀ kvs, h.get? v ≠ some (.cont kvs)) → R v)
+    (hleaf : (∃ kvs, h.get? v = some (.cont kvs)) → ∀ b, LeafBelow h v b → R b)
+    (he : putH h s l comps v = some (h', s')) : Upd R h h' ∧ SNew h s s' := by
   unfold putH at he
   cases hg : h.get? v with
   | none => simp [hg] at he
   | some cell =>
     cases cell with
-    | leaf sc => simp only [hg] at he; exact putNodeH_upd hc hf hs hv he
-    | list xs => simp only [hg] at he; exact putNodeH_upd hc hf hs hv he
+    | leaf sc =>
+      simp only [hg] at he
+      exact putNodeH_upd hc hf hs (hv (by intro kvs hk; rw [hg] at hk; cases hk)) he
+    | list xs =>
+      simp only [hg] at he
+      exact putNodeH_upd hc hf hs (hv (by intro kvs hk; rw [hg] at hk; cases hk)) he
     | cont kvs =>
       simp only [hg] at he
       cases hfl : flattenKvs (flattenF h.size h) kvs [] with
@@ -287,9 +354,9 @@ theorem putH_upd {h h' : Heap} {s s' : HOverlay} {l : String} {comps : List Stri
         simp only [hfl] at he
         refine putLeavesH_upd leaves h s h' s' hc hf hs ?_ he
         intro p hp
-        obtain ⟨q, hq, hr⟩ := flattenKvs_reach (flattenF_reach h.size) kvs [] leaves hfl p hp
-        have hqR : R q.2 := hc v _ hv hg q.2 (by simp only [Cell.kids, List.mem_map]; exact ⟨q, hq, rfl⟩)
-        exact hc.reach hqR hr
+        obtain ⟨q, hq, hr, hlf⟩ := flattenKvs_reach (flattenF_reach h.size) kvs [] leaves hfl p hp
+        exact hleaf ⟨kvs, hg⟩ p.2
+          ⟨.step hg (by simp only [Cell.kids, List.mem_map]; exact ⟨q, hq, rfl⟩) hr, hlf⟩
 
 theorem addAllH_upd {c : Addr} : ∀ (kvs : List (String × Addr)) (h h' : Heap),
     ClosedIn R h → R c → (∀ p ∈ kvs, R p.2) → addAllH h c kvs = some h' → Upd R h h'
@@ -305,14 +372,21 @@ theorem addAllH_upd {c : Addr} : ∀ (kvs : List (String × Addr)) (h h' : Heap)
       have u1 := addValue_upd hc hR (hk (k, v) (List.mem_cons_self ..)) ha
       exact u1.trans (addAllH_upd rest h1 h' u1.closed hR (fun p hp => hk p (List.mem_cons_of_mem _ hp)) he)
 
+/-- Add: the container `c` itself is not stored; its children must be in `R` -/
 theorem addH_upd {h h' : Heap} {s s' : HOverlay} {l : String} {c : Addr}
-    (hc : ClosedIn R h) (hf : FreshIn R h) (hs : ∀ a ∈ s.roots, R a) (hv : R c)
-    (he : addH h s l c = some (h', s')) : Upd R h h' ∧ ∀ a ∈ s'.roots, R a := by
+    (hc : ClosedIn R h) (hf : FreshIn R h) (hs : ∀ a, s.find l = some a → R a)
+    (hv : ∀ cell, h.get? c = some cell → ∀ k ∈ cell.kids, R k) (hlt : c < h.size)
+    (he : addH h s l c = some (h', s')) : Upd R h h' ∧ SNew h s s' := by
   unfold addH at he
-  obtain ⟨u0, hcur, hs1⟩ := ensureOverlay_upd (l := l) hc hf hs
-  generalize ensureOverlay h s l = eo at he u0 hcur hs1
+  obtain ⟨u0, hcur, hs1, _⟩ := ensureOverlay_upd (l := l) hc hf hs
+  have hprefix : (ensureOverlay h s l).1.get? c = h.get? c := by
+    unfold ensureOverlay
+    cases s.find l with
+    | some a => rfl
+    | none => exact get?_eq_of_le (le_alloc _ _) hlt
+  generalize ensureOverlay h s l = eo at he u0 hcur hs1 hprefix
   obtain ⟨h1, s1, cur⟩ := eo
-  simp only at he u0 hcur hs1
+  simp only at he u0 hcur hs1 hprefix
   cases hg : h1.get? c with
   | none => simp [hg] at he
   | some cell =>
@@ -328,7 +402,8 @@ theorem addH_upd {h h' : Heap} {s s' : HOverlay} {l : String} {c : Addr}
         obtain ⟨rfl, rfl⟩ := he
         refine ⟨u0.trans (addAllH_upd kvs h1 h2 u0.closed hcur ?_ ha), hs1⟩
         intro p hp
-        exact u0.closed c _ hv hg p.2 (by simp only [Cell.kids, List.mem_map]; exact ⟨p, hp, rfl⟩)
+        rw [hprefix] at hg
+        exact hv _ hg p.2 (by simp only [Cell.kids, List.mem_map]; exact ⟨p, hp, rfl⟩)
 
 /-! ### decodeContainerFn: new cells and the shared nil leaf -/
 
@@ -416,10 +491,10 @@ theorem decodeInto_upd (hnil : R nilAddr) {c : Addr} : ∀ (data : List (String 
 
 theorem populateH_upd {h h' : Heap} {s s' : HOverlay} {l : String} {comps : List String}
     {data : List (String × Node)} (hnil : R nilAddr)
-    (hc : ClosedIn R h) (hf : FreshIn R h) (hs : ∀ a ∈ s.roots, R a)
-    (he : populateH h s l comps data = some (h', s')) : Upd R h h' ∧ ∀ a ∈ s'.roots, R a := by
+    (hc : ClosedIn R h) (hf : FreshIn R h) (hs : ∀ a, s.find l = some a → R a)
+    (he : populateH h s l comps data = some (h', s')) : Upd R h h' ∧ SNew h s s' := by
   unfold populateH at he
-  obtain ⟨u0, hcur, hs1⟩ := ensureOverlay_upd (l := l) hc hf hs
+  obtain ⟨u0, hcur, hs1, _⟩ := ensureOverlay_upd (l := l) hc hf hs
   generalize ensureOverlay h s l = eo at he u0 hcur hs1
   obtain ⟨h1, s1, cur⟩ := eo
   simp only at he u0 hcur hs1
@@ -440,16 +515,21 @@ theorem populateH_upd {h h' : Heap} {s s' : HOverlay} {l : String} {comps : List
 /-- every overlay write is an `Upd` step for every closed set that holds the layer roots, the
     caller's argument nodes, the nil leaf and everything not allocated yet -/
 theorem applyOvOp_upd {h h' : Heap} {s s' : HOverlay} {op : OvOp} (hnil : R nilAddr)
-    (hc : ClosedIn R h) (hf : FreshIn R h) (hs : ∀ a ∈ s.roots, R a) (hargs : ∀ a ∈ op.args, R a)
-    (he : applyOvOp h s op = some (h', s')) : Upd R h h' ∧ ∀ a ∈ s'.roots, R a := by
+    (hc : ClosedIn R h) (hf : FreshIn R h) (hs : ∀ a, s.find op.layer = some a → R a)
+    (hargs : ∀ a ∈ op.args, R a ∧ a < h.size)
+    (he : applyOvOp h s op = some (h', s')) : Upd R h h' ∧ SNew h s s' := by
   cases op with
-  | put l comps v => exact putH_upd hc hf hs (hargs v (by simp [OvOp.args])) he
-  | add l c => exact addH_upd hc hf hs (hargs c (by simp [OvOp.args])) he
+  | put l comps v =>
+    have hv := (hargs v (by simp [OvOp.args])).1
+    exact putH_upd hc hf hs (fun _ => hv) (fun _ b hb => hc.reach hv hb.1) he
+  | add l c =>
+    have hv := hargs c (by simp [OvOp.args])
+    exact addH_upd hc hf hs (fun cell hg k hk => hc c cell hv.1 hg k hk) hv.2 he
   | populate l comps data => exact populateH_upd hnil hc hf hs he
 
 theorem applyOvOps_upd (hnil : R nilAddr) : ∀ (ops : List OvOp) (h : Heap) (s : HOverlay) (h' : Heap)
     (s' : HOverlay), ClosedIn R h → FreshIn R h → (∀ a ∈ s.roots, R a) →
-    (∀ op ∈ ops, ∀ a ∈ op.args, R a) → applyOvOps h s ops = some (h', s') →
+    (∀ op ∈ ops, ∀ a ∈ op.args, R a ∧ a < h.size) → applyOvOps h s ops = some (h', s') →
     Upd R h h' ∧ ∀ a ∈ s'.roots, R a
   | [], h, s, h', s', hc, _, hs, _, he => by
     simp only [applyOvOps, Option.some.injEq, Prod.mk.injEq] at he
@@ -462,9 +542,16 @@ theorem applyOvOps_upd (hnil : R nilAddr) : ∀ (ops : List OvOp) (h : Heap) (s 
     | some q =>
       obtain ⟨g, t⟩ := q
       simp only [h1] at he
-      obtain ⟨u1, hs1⟩ := applyOvOp_upd hnil hc hf hs (hargs op (List.mem_cons_self ..)) h1
-      obtain ⟨u2, hs2⟩ := applyOvOps_upd hnil ops g t h' s' u1.closed (hf.mono u1.size) hs1
-        (fun o ho => hargs o (List.mem_cons_of_mem _ ho)) he
+      obtain ⟨u1, hs1⟩ := applyOvOp_upd hnil hc hf (fun a ha => hs a (HOverlay.find_mem ha))
+        (hargs op (List.mem_cons_self ..)) h1
+      have hst : ∀ a ∈ t.roots, R a := by
+        intro a ha
+        rcases hs1.1 a ha with h2 | h2
+        · exact hs a h2
+        · exact hf a h2
+      obtain ⟨u2, hs2⟩ := applyOvOps_upd hnil ops g t h' s' u1.closed (hf.mono u1.size) hst
+        (fun o ho a ha => ⟨(hargs o (List.mem_cons_of_mem _ ho) a ha).1,
+          Nat.lt_of_lt_of_le (hargs o (List.mem_cons_of_mem _ ho) a ha).2 u1.size⟩) he
       exact ⟨u1.trans u2, hs2⟩
 
 end ops
